@@ -16,7 +16,6 @@ struct StringRun {
 
     explicit StringRun(Run& r) : R(r), a(0), b(0) {
         R.apiClass = "XalanDOMString";
-        R.apiMethods = "assign,append,insert,erase,substr,compare,resize,reserve,clear,swap,operator=,operator+=,operator[],at,push_back,begin,end,rbegin,rend,size,length,empty,capacity,c_str,data,hash,equals,clone,transcode,XalanDOMString";
         a = new S(R.mm); b = new S(R.mm);
         const int cap = (int)(R.plan.at("knobs").num("cap", 0) & 15);
         if (cap) a->reserve((sz)cap);
@@ -127,7 +126,7 @@ struct StringRun {
             post += np ? t.substr(p) : t.substr(p, c);
             R.call([&] { a->append(x.s, (sz)p, np ? S::npos : (sz)c); }); after(two(pre, post));
         }
-        else if (o == "append_self") { post += pre; R.call([&] { S& alias = *a; if (R.arg("via")) *a += alias; else a->append(alias); }); after(two(pre, post)); }
+        else if (o == "append_self") { if (n > 256) return skip(); post += pre; R.call([&] { S& alias = *a; if (R.arg("via")) *a += alias; else a->append(alias); }); after(two(pre, post)); }
         else if (o == "append_fill") { const size_t c = R.uarg("n") % 10; post.append(c, ch()); R.call([&] { a->append((sz)c, ch()); }); after(two(pre, post)); }
         else if (o == "push_back") { post.push_back(ch()); if (R.arg("via")) R.call([&] { *a += ch(); }); else R.call([&] { a->push_back(ch()); }); after(two(pre, post)); }
         else if (o == "append_narrow") { const std::string t = narrow(); post += widen(t); R.call([&] { a->append(t.c_str()); }); after(two(pre, post)); }
@@ -140,7 +139,7 @@ struct StringRun {
             const U t = text(); TmpStr x(t, R.mm); const size_t p2 = R.uarg("j") % (t.size() + 1), c2 = std::min<size_t>(R.uarg("m") % 10, t.size() - p2);
             post.insert(pos, t, p2, c2); R.call([&] { a->insert((sz)pos, x.s, (sz)p2, (sz)c2); }); after(two(pre, post));
         }
-        else if (o == "insert_self") { post.insert(pos, pre); R.call([&] { S& alias = *a; a->insert((sz)pos, alias); }); after(two(pre, post)); }
+        else if (o == "insert_self") { if (n > 256) return skip(); post.insert(pos, pre); R.call([&] { S& alias = *a; a->insert((sz)pos, alias); }); after(two(pre, post)); }
         else if (o == "insert_fill") { const size_t c = R.uarg("m") % 8; post.insert(pos, c, ch()); R.call([&] { a->insert((sz)pos, (sz)c, ch()); }); after(three(pre, post)); }
         else if (o == "insert_it_char") {
             post.insert(post.begin() + pos, ch()); S::iterator r = 0;
